@@ -127,6 +127,23 @@ Theorem c03_portgraph_many_then_single_on_good_patterns :
     exists m2, In m2 r2 /\ forall u k, In (u, k) nk -> pgget m2 k = pgget b1 k.
 Proof. exact pg_run_then_single. Qed.
 
+(** the keys an accepting state records for a pattern (add_pattern, Model/Scopes.v; compared
+    with every dump: case field [mkeys]) are, as a set, the keys the one-pattern matcher
+    requests and binds for it ([Matchers.requested], single_pattern.rs): both matchers
+    report bindings of the same keys, in every domain *)
+From PM Require Import Model.Scheme Model.Scopes Spec.TopoSpec Proofs.ScopesProofs.
+
+Theorem c03_recorded_keys_are_the_single_matcher_keys :
+  forall (K V M H P : Type) (D : DomOps K V M H P), DomEq D -> acyclic (req D) ->
+  forall (fuel fuel' : nat) (extra : list K) (cs : list (constraint K P)) (l l' : list K),
+    pattern_keys D fuel extra cs = Ok l ->
+    Matchers.requested D fuel' extra cs = Ok l' ->
+    forall x, In x l <-> In x l'.
+Proof.
+  intros K V M H P D HD Hac fuel fuel' extra cs l l' E E'.
+  exact (pattern_keys_same_as_requested D HD Hac fuel fuel' extra cs l l' E E').
+Qed.
+
 Print Assumptions c03_accepts_iff_constraints.
 Print Assumptions c03_portgraph_accepts_iff_constraints.
 Print Assumptions c03_string_many_equals_naive.
@@ -134,3 +151,4 @@ Print Assumptions c03_matrix_many_equals_naive.
 Print Assumptions c04_c06_certified_automata_agree.
 Print Assumptions c03_portgraph_single_then_many_on_single_root_sets.
 Print Assumptions c03_portgraph_many_then_single_on_good_patterns.
+Print Assumptions c03_recorded_keys_are_the_single_matcher_keys.
